@@ -3,17 +3,21 @@
 EXTENDS RSNorm, Json
 CONSTANTS Depth
 P(k, n, tr, e) == [nslots |-> k, nstat |-> n, tracked |-> tr, eps |-> e]
-\* one statistic, two wrappers, two priors
-MCParams1 == { P(2, 1, {1}, <<1, 2>>), P(2, 1, {1}, <<1, 1>>) }
-MCParams1t == MCParams1 \cup { P(2, 1, {1}, <<1, 4>>) }
-\* two statistics (two keys): both tracked, or only the first (norm_obs_keys)
-MCParams2 == { P(2, 2, {1, 2}, <<1, 2>>), P(2, 2, {1}, <<1, 2>>) }
+AllOps == {"act", "learn", "mode", "clone", "save", "load", "loadnew"}
+ArithOps == {"act", "mode"}
+\* arithmetic: one wrapper, one statistic, three priors, a rich grid (batching = every split into batches of <= MaxB)
+ParamsArith == { P(1, 1, {1}, <<1, 2>>), P(1, 1, {1}, <<1, 1>>), P(1, 1, {1}, <<1, 4>>) }
+\* life cycle: two wrappers, clone / save / load / loadnew, small grid
+ParamsLife == { P(2, 1, {1}, <<1, 2>>) }
+ParamsLife3 == { P(3, 1, {1}, <<1, 2>>) }
+\* keys: two statistics (two keys): both tracked, or only the first (norm_obs_keys)
+ParamsKeys == { P(1, 2, {1, 2}, <<1, 2>>), P(1, 2, {1}, <<1, 2>>) }
 \* histories for replay into the real wrapper: 2 or 3 statistics, 3 slots
 GenParams == { P(3, 2, {1, 2}, <<1, 2>>), P(3, 2, {1, 2}, <<1, 1>>), P(3, 3, {1, 2, 3}, <<1, 2>>), P(3, 3, {1, 2, 3}, <<1, 4>>) }
-MCVals3 == {-1, 0, 2}
-MCVals4 == {-2, 0, 1, 3}
-MCVals2 == {0, 1}
-MCValsG == {-2, -1, 0, 1, 2}
+ValsA == {-2, -1, 0, 1, 2}
+ValsAt == {-3, -2, -1, 0, 1, 2, 3}
+ValsL == {-1, 2}
+ValsK == {0, 1}
 \* history generation: bounded number of operations, printed when the bound is reached
 GenBound == Len(hist) <= Depth - 1
 Emit == (TLCGet("level") = Depth) => PrintT(<<"BEH", ToJson([par |-> [nslots |-> par.nslots, nstat |-> par.nstat, eps |-> par.eps], ops |-> hist])>>)
